@@ -193,6 +193,15 @@ def trace_shape(root: int, c0: int, c1: int, p: int, fault: int, tkind: int) -> 
         s = str(e)
     if len(FAILED) != 1:
         return True
+    if fault in (1, 2, 3, 4):
+        # a planted GlomError anywhere inside a Switch KEY spec means "this case does not match", not a failure of the
+        # evaluation; what fails then is the Switch itself (no matches) -- the branch family, not this one
+        child = ('leaf', FAILED[0])
+        while ctx.parent[child] is not None:
+            par = ctx.parent[child]
+            if isinstance(ctx.spec_of[par], Switch) and ctx.spec_of[par].cases[0][0] is ctx.spec_of[child]:
+                return True
+            child = par
     reach('trace')
     parsed = parse(s)
     if parsed is None:
